@@ -589,7 +589,15 @@ class ExprMixin:
             seq = self.as_seq(base) if not isinstance(base, SSeq) else base
             if not isinstance(key, (SInt, SBool)):
                 if isinstance(key, SDyn) and self.specmode:
-                    key = SInt(Val.i(key.t))
+                    key = SInt(z3.If(Val.is_VBool(key.t), z3.If(Val.b(key.t), 1, 0), Val.i(key.t)))     # a bool indexes as 0 / 1
+                elif isinstance(key, SDyn):
+                    # a value of unknown type used as an index: an int indexes, a bool indexes as 0 / 1, anything else is a TypeError
+                    if self.branch(Val.is_VInt(key.t)):
+                        key = SInt(Val.i(key.t))
+                    elif self.branch(Val.is_VBool(key.t)):
+                        key = SInt(z3.If(Val.b(key.t), 1, 0))
+                    else:
+                        raise PyRaise('TypeError', ln, 'list indices must be integers or slices')
                 else:
                     raise Unsupported(f'index {key!r} into sequence')
             k = self.as_int(key)
